@@ -78,7 +78,7 @@ type Step struct {
 	Target   int     `json:"t,omitempty"`      // get
 	Optional bool    `json:"opt,omitempty"`    // the factory ignores an error of this step
 	Fields   []Field `json:"fields,omitempty"` // inject
-	Pool     string  `json:"pool,omitempty"`   // inject: "" | "before" | "after" (see Req.Pool)
+	Pool     string  `json:"pool,omitempty"`   // inject: "" | "before" | "after" | "foreign" (see Req.Pool)
 	Def      *DefOp  `json:"def,omitempty"`    // define (always late: a factory only runs inside a resolution)
 }
 
@@ -102,7 +102,8 @@ type Req struct {
 	Fields []Field `json:"fields,omitempty"`
 	// Pool: one struct value injected by two providers in turn. "before": a second provider (defining every name)
 	// injects the struct first, then the container under test; "after": the other way round, and the second
-	// provider's instances must then be in the fields.
+	// provider's instances must then be in the fields. "foreign": a provider reading another tag name is given
+	// the struct first; it must leave it alone and must not change what the container under test does with it.
 	Pool string `json:"pool,omitempty"`
 	Def  *DefOp `json:"def,omitempty"`
 }
@@ -180,6 +181,7 @@ type executor struct {
 
 	aux     app.DependencyProvider // the second provider: every name (also NX) is Set to an instance of its own
 	auxInst map[int]*Inst
+	frn     app.DependencyProvider // a provider that reads another tag name (pool "foreign")
 }
 
 var errFactory = errors.New("generated factory failure")
@@ -505,6 +507,21 @@ func (x *executor) descStack() string {
 	return "[" + strings.Join(p, " ") + "]"
 }
 
+const foreignTag = "inject"
+
+// foreign returns a provider that reads the tag name "inject" and defines every name (built on first use).
+func (x *executor) foreign() app.DependencyProvider {
+	if x.frn == nil {
+		x.frn = dependency.NewProvider(foreignTag)
+		for n := 0; n <= NNames; n++ {
+			if err := x.frn.Set(nameOf(n), &Inst{Def: -3, Name: nameOf(n) + "@foreign-provider"}); err != nil {
+				x.fail("setup", "foreign provider: %v", err)
+			}
+		}
+	}
+	return x.frn
+}
+
 // second returns the second provider (built on first use).
 func (x *executor) second() app.DependencyProvider {
 	if x.aux == nil {
@@ -620,6 +637,22 @@ func (x *executor) inject(call func(interface{}) error, fields []Field, nested b
 			if f.Tag == "dep" && !obj.Elem().Field(i).IsNil() {
 				pre[i] = true
 			}
+		}
+	}
+	if pool == "foreign" {
+		// a provider that reads ANOTHER tag name sees the struct first (two containers in one process, one
+		// wired with "dependency" tags, one with "inject" tags): it has nothing to do with these fields,
+		// and whatever it learned about the struct type must not change what this container does with it
+		x.labels["two-providers-foreign-tag-name"] = true
+		before := reflect.New(obj.Elem().Type())
+		before.Elem().Set(obj.Elem())
+		if err := x.foreign().InjectTo(obj.Interface()); err != nil {
+			x.fail("outcome", "%s(%s): a provider for the tag name %q was given the struct first (no field carries that tag) and failed: %v", where, descFields(fields), foreignTag, err)
+			return false
+		}
+		if !reflect.DeepEqual(before.Elem().Interface(), obj.Elem().Interface()) {
+			x.fail("same-instance", "%s(%s): a provider for the tag name %q was given the struct first; no field carries that tag, yet it changed the struct from %+v to %+v", where, descFields(fields), foreignTag, before.Elem().Interface(), obj.Elem().Interface())
+			return false
 		}
 	}
 	x.pending = append(x.pending, targets)
